@@ -292,6 +292,7 @@ func (n *Node) Start(ctx context.Context) (err error) {
 			panic(r)
 		}
 	}()
+	n.KV.Probe, n.Exec.Probe = nil, nil
 	m, e := block.NewManager(ctx, sg, n.Cfg, n.W.Genesis, n.Store, n.Exec, n.Seq, n.W.DA,
 		logging.Logger("verif-"+n.Opts.Name), n.HStore, n.DStore, n.HB, n.DB, block.NopMetrics(), 1.0, 1.5, block.DefaultManagerOptions())
 	if e != nil {
@@ -300,6 +301,8 @@ func (n *Node) Start(ctx context.Context) (err error) {
 		return e
 	}
 	n.M = m
+	probe := func() int { return clampInt(m.GetDAIncludedHeight()) }
+	n.KV.Probe, n.Exec.Probe = probe, probe
 	n.W.Tr.Emit("Restart", F{"node": n.Opts.Name, "ok": true, "err": "", "k": n.Starts})
 	return nil
 }
